@@ -310,6 +310,49 @@ func c18kReadCase(version string, ttl int) (obs, sig, msg string) {
 	return "read ok", "", ""
 }
 
+// c18kListenOverlap: one 2026-07-28 session with two listens open for the same kind (the one Connect
+// opened and a second one); one of them ends.  The session still has a matching subscription, so a
+// later change must still be announced to it.  ends: "older" or "newer".
+func c18kListenOverlap(ends string) (obs, sig, msg string) {
+	fail := func(s, format string, a ...any) (string, string, string) {
+		return "", "c18 kinds listen-overlap " + s, fmt.Sprintf(format, a...) + fmt.Sprintf(" [the %s listen ends]", ends)
+	}
+	s := c18kServer(0)
+	for _, kk := range c18kKinds() {
+		kk.add(s, "base")
+	}
+	var n c18kCounts
+	cs, err := c18kConnect(s, "2026-07-28", &n)
+	if err != nil {
+		return fail("connect", "%v", err)
+	}
+	defer cs.Close()
+	settle := func() {
+		time.Sleep(time.Second)
+		synctest.Wait()
+	}
+	settle()
+	ctxB, cancelB := context.WithCancel(context.Background())
+	defer cancelB()
+	if err := cs.subscriptionsListen(ctxB, &SubscriptionsListenParams{Notifications: &NotificationSubscriptions{ToolsListChanged: true}}); err != nil {
+		return fail("second-listen-failed", "%v", err)
+	}
+	settle()
+	if ends == "older" {
+		cs.listenCancel()
+	} else {
+		cancelB()
+	}
+	settle()
+	before := n.tools
+	c18kKinds()[0].add(s, "added-later")
+	settle()
+	if n.tools == before {
+		return fail("notification-lost "+ends+"-ends", "two tools/list_changed listens were open on the session, the %s one ended; the other is still open, yet a tool added afterwards was not announced", ends)
+	}
+	return "listen-overlap ok", "", ""
+}
+
 // c18kListenIndependence: a session's subscriptions are independent of each other.  Under
 // 2026-07-28 each cs.Subscribe(uri) is its own subscriptions/listen next to the session's main
 // listen (list-changed kinds); ending one of them (Unsubscribe) must not end the others.
@@ -414,6 +457,11 @@ func TestVerifC18Kinds(t *testing.T) {
 				run(fmt.Sprintf("read version=%s ttl=%d transport=%s", version, ttl, tr), via(func() (string, string, string) { return c18kReadCase(version, ttl) }))
 			}
 			run(fmt.Sprintf("listen-independence version=%s transport=%s", version, tr), via(func() (string, string, string) { return c18kListenIndependence(version) }))
+		}
+		if tr == "inmem" {
+			for _, ends := range []string{"older", "newer"} {
+				run(fmt.Sprintf("listen-overlap %s-ends", ends), via(func() (string, string, string) { return c18kListenOverlap(ends) }))
+			}
 		}
 	}
 	env.Finish(res)
